@@ -136,6 +136,35 @@ CLAIMED["C04"] = {
     "design_ref": "5 (C04)",
 }
 
+CLAIMED["C06"] = {
+    "text": "Lean stage theorems of translation equivariance, for every integer offset (k, n): cell adjacency and hence "
+            "Span::merge_recursive commute with moving the cells (same groups, same order); Fragment::merge in all its cases "
+            "(collinear touching lines, line+bullet incl. heading and distance thresholds, adjacent cell texts) and hence the "
+            "whole fragment merge_recursive of a scope commute with moving the fragments; all geometric predicates used are "
+            "functions of coordinate differences. The composition over the whole pipeline is not yet one theorem; it is "
+            "checked by the byte-level end-to-end correspondence at offsets up to (400, 200) and by the shift oracle on the "
+            "implementation (svg(shifted) = svg(original) translated, canvas grown).",
+    "note": "Trusted: Lean kernel (+Mathlib ring); correspondence; f32 absolute-coordinate effects in the implementation "
+            "(parry's relative-epsilon point-on-segment test, arc centre ==) are outside the exact model and would surface "
+            "as model/implementation disagreements at large offsets; front end, per-cell fragments, contacts, endorsement "
+            "equivariance not yet proved.",
+    "technique": "Lean 4 proof (equivariance of the greedy loops under translation) + byte-level end-to-end correspondence at large offsets + relational shift oracle",
+    "design_ref": "5 (C06)",
+}
+CLAIMED["C10"] = {
+    "text": "Lean theorem endorsement_independent: for cells on the two sides of a blank column or row, the top-level "
+            "fragments and groups of the whole drawing are, as multisets, those of the low side plus those of the high side "
+            "(absolute coordinates, so each part is in its place). Proved through a generic locality theorem of the greedy "
+            "merge loop (restriction to a class commutes with merge_recursive, via iterated-pass fixpoint uniqueness), its "
+            "instance for spans (no merge across the gap), and the span-by-span structure of all later stages. End-to-end "
+            "byte correspondence on juxtaposed diagrams; the union oracle (elements of svg(A+B) = svg(A) + shifted svg(B), "
+            "canvas covers both) runs on the implementation.",
+    "note": "Trusted: Lean kernel; correspondence; the containment forest (document order, tags) is outside the theorem "
+            "(inputs tag-free; oracle compares multisets); the theorem assumes the three runs do not panic (C01).",
+    "technique": "Lean 4 proof (locality of the greedy merge loop, multiset union at the endorsement stage) + byte-level end-to-end correspondence + union oracle",
+    "design_ref": "5 (C10)",
+}
+
 NOT_YET = {
 }
 
